@@ -404,12 +404,17 @@ package derive
 //@ reads-heap
 
 //@ func newPackage(program *loader.Program, pkgInfo *loader.PackageInfo, plugins []Plugin, autoname, dedup bool) (r *pkg, err error)
-//@ assigns fs, foff, handledBy, synced, any ast.CallExpr.Fun, any derive.finder.undefined, any derive.finder.derived, any derive.finder.funcNames
+//@ assigns fs, foff, handledBy, synced, renamedUnsaved, any ast.CallExpr.Fun, any derive.finder.undefined, any derive.finder.derived, any derive.finder.funcNames
 //@ requires program != nil && program.Fset != nil && infoOK(pkgInfo)
 //@ requires [plugins-sorted] forall a int, b int :: 0 <= a && a < b && b < len(plugins) ==> !before(plugins[b], plugins[a])
 //@ requires forall k int :: 0 <= k && k < len(plugins) ==> plugins[k] != nil
 //@ ghost-on-return: synced = false
 //@ ensures [not-synced] !synced
+// renamedUnsaved: a call site has been renamed in memory and its file has not been written since
+//@ ghost-on-assign ast.CallExpr.Fun: renamedUnsaved = true
+//@ ghost-after-call format.Node: renamedUnsaved = renamedUnsaved && $ret0 != nil
+//@ requires [nothing-pending] !renamedUnsaved
+//@ ensures [renamed-call-sites-saved] err == nil ==> !renamedUnsaved
 //@ ensures [user-files-intact] (!autoname && !dedup) ==> forall q string :: ((q in fs) <==> (q in old(fs))) && fs[q] == old(fs)[q]
 //@ ensures [derived-file-untouched] forall q string :: isDerivedFile(q) ==> ((q in fs) <==> (q in old(fs))) && fs[q] == old(fs)[q]
 //@ ensures [no-file-created-or-deleted] forall q string :: (q in fs) <==> (q in old(fs))
@@ -428,6 +433,8 @@ package derive
 //@ loop 4: invariant forall q string :: ((q in fs) <==> (q in old(fs))) && (isDerivedFile(q) ==> fs[q] == old(fs)[q])
 //@ loop 5: invariant pkg != nil && pkg.plugins == plugins && pkg.generators == generators && pkg.printer == printer
 //@ loop 5: invariant (!autoname && !dedup) ==> !changed
+//@ loop 4: invariant !renamedUnsaved
+//@ loop 5: invariant renamedUnsaved ==> changed
 
 // The collection NewPlugins returns is sorted (longest prefix first) and freezes the prefixes (C12).
 //@ ghost-fun sortedPlugins(ps) = forall a int, b int :: 0 <= a && a < b && b < len(ps) ==> !before(ps[b], ps[a])
@@ -489,8 +496,10 @@ package derive
 //@ ensures infoOK(r)
 
 //@ func (pg *program) generatePackage(pkgInfo *loader.PackageInfo) (err error)
-//@ assigns fs, foff, handledBy, synced, any ast.CallExpr.Fun, any derive.finder.undefined, any derive.finder.derived, any derive.finder.funcNames, any derive.printer.hasContent, any derive.printer.indent, any derive.printer.w, any derive.printer.imports, any derive.typesMap.generated, any derive.typesMap.funcToTyps, any derive.typesMap.typss
+//@ assigns fs, foff, handledBy, synced, renamedUnsaved, any ast.CallExpr.Fun, any derive.finder.undefined, any derive.finder.derived, any derive.finder.funcNames, any derive.printer.hasContent, any derive.printer.indent, any derive.printer.w, any derive.printer.imports, any derive.typesMap.generated, any derive.typesMap.funcToTyps, any derive.typesMap.typss
 //@ requires infoOK(pkgInfo)
+//@ requires [nothing-pending] !renamedUnsaved
+//@ ensures [renamed-call-sites-saved] err == nil ==> !renamedUnsaved
 //@ ensures [derived-file-synced] err == nil ==> synced
 //@ ensures [user-files-intact] (!pg.autoname && !pg.dedup) ==> forall q string :: !isDerivedFile(q) ==> ((q in fs) <==> (q in old(fs))) && fs[q] == old(fs)[q]
 //@ ensures [only-derived-file-created-or-deleted] forall q string :: !isDerivedFile(q) ==> ((q in fs) <==> (q in old(fs)))
@@ -501,6 +510,7 @@ package derive
 //@ loop 1: invariant forall id *ast.Ident :: id in pkgInfo.Uses ==> pkgInfo.Uses[id] != nil
 //@ loop 1: invariant forall k int :: 0 <= k && k < len(pkgInfo.Files) ==> pkgInfo.Files[k] != nil
 //@ loop 1: invariant !generated ==> synced
+//@ loop 1: invariant !renamedUnsaved
 //@ loop 1: invariant (!pg.autoname && !pg.dedup) ==> forall q string :: !isDerivedFile(q) ==> ((q in fs) <==> (q in old(fs))) && fs[q] == old(fs)[q]
 //@ loop 1: invariant forall q string :: !isDerivedFile(q) ==> ((q in fs) <==> (q in old(fs)))
 
@@ -591,15 +601,20 @@ package derive
 //@ ensures forall i int :: 0 <= i && i < len(r) ==> infoOK(r[i])
 
 //@ func (pg *program) Generate() (err error)
-//@ assigns fs, foff, handledBy, synced, any ast.CallExpr.Fun, any derive.finder.undefined, any derive.finder.derived, any derive.finder.funcNames, any derive.printer.hasContent, any derive.printer.indent, any derive.printer.w, any derive.printer.imports, any derive.typesMap.generated, any derive.typesMap.funcToTyps, any derive.typesMap.typss
+//@ assigns fs, foff, handledBy, synced, renamedUnsaved, any ast.CallExpr.Fun, any derive.finder.undefined, any derive.finder.derived, any derive.finder.funcNames, any derive.printer.hasContent, any derive.printer.indent, any derive.printer.w, any derive.printer.imports, any derive.typesMap.generated, any derive.typesMap.funcToTyps, any derive.typesMap.typss
+//@ requires [nothing-pending] !renamedUnsaved
+//@ ensures [renamed-call-sites-saved] err == nil ==> !renamedUnsaved
 //@ ensures [user-files-intact] (!pg.autoname && !pg.dedup) ==> forall q string :: !isDerivedFile(q) ==> ((q in fs) <==> (q in old(fs))) && fs[q] == old(fs)[q]
 //@ ensures [only-derived-file-created-or-deleted] forall q string :: !isDerivedFile(q) ==> ((q in fs) <==> (q in old(fs)))
+//@ loop 1: invariant !renamedUnsaved
 //@ loop 1: invariant (!pg.autoname && !pg.dedup) ==> forall q string :: !isDerivedFile(q) ==> ((q in fs) <==> (q in old(fs))) && fs[q] == old(fs)[q]
 //@ loop 1: invariant forall q string :: !isDerivedFile(q) ==> ((q in fs) <==> (q in old(fs)))
 
 // the interface view main.go uses
 //@ func (pg *Program) Generate() (err error)
-//@ assigns fs, foff, handledBy, synced, any ast.CallExpr.Fun, any derive.finder.undefined, any derive.finder.derived, any derive.finder.funcNames, any derive.printer.hasContent, any derive.printer.indent, any derive.printer.w, any derive.printer.imports, any derive.typesMap.generated, any derive.typesMap.funcToTyps, any derive.typesMap.typss
+//@ assigns fs, foff, handledBy, synced, renamedUnsaved, any ast.CallExpr.Fun, any derive.finder.undefined, any derive.finder.derived, any derive.finder.funcNames, any derive.printer.hasContent, any derive.printer.indent, any derive.printer.w, any derive.printer.imports, any derive.typesMap.generated, any derive.typesMap.funcToTyps, any derive.typesMap.typss
 //@ requires [program-sorted] pg != nil && sortedPlugins(castp(pg, program).plugins) && nonNilPlugins(castp(pg, program).plugins) && castp(pg, program).program != nil && castp(pg, program).program.Fset != nil
+//@ requires [nothing-pending] !renamedUnsaved
+//@ ensures [renamed-call-sites-saved] err == nil ==> !renamedUnsaved
 //@ ensures [user-files-intact] (!castp(pg, program).autoname && !castp(pg, program).dedup) ==> forall q string :: !isDerivedFile(q) ==> ((q in fs) <==> (q in old(fs))) && fs[q] == old(fs)[q]
 //@ ensures [only-derived-file-created-or-deleted] forall q string :: !isDerivedFile(q) ==> ((q in fs) <==> (q in old(fs)))
